@@ -32,10 +32,11 @@ type c01Cfg struct {
 }
 
 type c01Ex struct {
-	Req    vh.RawReq `json:"req"`
-	Script vh.Script `json:"script"`
-	Stream bool      `json:"stream,omitempty"` // streaming oracle applies
-	Label  string    `json:"label"`
+	Req       vh.RawReq `json:"req"`
+	Script    vh.Script `json:"script"`
+	Stream    bool      `json:"stream,omitempty"`    // streaming oracle applies
+	Truncated bool      `json:"truncated,omitempty"` // the backend cuts the body short: only "the client can tell" is compared
+	Label     string    `json:"label"`
 }
 
 var hopByHop = map[string]bool{"connection": true, "keep-alive": true, "proxy-connection": true, "proxy-authenticate": true, "proxy-authorization": true,
@@ -172,6 +173,14 @@ func c01Exchanges(e *vh.Env, c c01Cfg) []c01Ex {
 			})
 		}
 	}
+	add("chunked body cut short", func(x *c01Ex) {
+		x.Truncated = true
+		x.Script = vh.Script{Status: 200, Headers: [][2]string{{"Content-Type", "text/plain"}}, Framing: "chunked", Steps: []vh.Step{{Op: "write", N: 3000}, {Op: "flush"}, {Op: "closeconn"}}}
+	})
+	add("declared body cut short", func(x *c01Ex) {
+		x.Truncated = true
+		x.Script = vh.Script{Status: 200, Headers: [][2]string{{"Content-Type", "text/plain"}}, Framing: "cl", Declared: 6000, Steps: []vh.Step{{Op: "write", N: 1000}, {Op: "flush"}, {Op: "closeconn"}}}
+	})
 	add("req trailers", func(x *c01Ex) {
 		x.Req.Method = "POST"
 		x.Req.BodyLen, x.Req.Chunked, x.Req.ChunkSize = 300, true, 100
@@ -278,7 +287,7 @@ func c01Exchanges(e *vh.Env, c c01Cfg) []c01Ex {
 	for i := 0; i < e.Pick(150, 1500); i++ {
 		x := xs[r.Intn(base)]
 		y := xs[r.Intn(base)]
-		z := c01Ex{Req: x.Req, Script: y.Script, Stream: y.Stream, Label: "combo(" + x.Label + " + " + y.Label + ")"}
+		z := c01Ex{Req: x.Req, Script: y.Script, Stream: y.Stream, Truncated: y.Truncated, Label: "combo(" + x.Label + " + " + y.Label + ")"}
 		// extra header sets are added only if they introduce no name that is already present
 		// (repeating a singleton header such as User-Agent or Content-Type is not valid HTTP)
 		disjoint := func(have, extra [][2]string) bool {
@@ -327,7 +336,7 @@ func init() {
 			return cs
 		},
 		func(e *vh.Env, c c01Cfg, o *vh.Out) {
-			o.Need("exchanges_compared", "stream_checks", "interim_seen", "trailers_seen")
+			o.Need("exchanges_compared", "stream_checks", "interim_seen", "trailers_seen", "truncated_bodies_noticed")
 			bes := newBackends(c.NBack)
 			defer closeBackends(bes)
 			cfg := baseConfig(c.Strategy, bes)
@@ -461,6 +470,17 @@ func init() {
 					o.Obs("req_trailers_seen", 1)
 				}
 				// ---- client side
+				if x.Truncated {
+					// the backend died in the middle of the body: both clients must be able to tell
+					if dres.Err == "" && dres.Complete {
+						o.Inconcl("direct exchange %q: the cut body was not noticed by the reference client", x.Label)
+					} else if pres.Err == "" && pres.Complete {
+						viol("truncation-hidden", fmt.Sprintf("the backend cut the body after %d bytes; the direct client sees %q, the client behind Helios received a response that looks complete (%d bytes)", dres.BodyLen, dres.Err, pres.BodyLen))
+					} else {
+						o.Obs("truncated_bodies_noticed", 1)
+					}
+					continue
+				}
 				if dres.Err != "" {
 					o.Inconcl("direct exchange %q failed: %s", x.Label, dres.Err)
 					continue
@@ -603,8 +623,8 @@ func init() {
 			cname := fmt.Sprintf("tls+h2 %s chain=%q ids=%v", c.Strategy, c.Chain, c.IDs)
 			all := c01Exchanges(e, c01Cfg{Strategy: c.Strategy, Chain: c.Chain, IDs: c.IDs, Batch: 99})
 			for xi, x := range all {
-				if x.Stream || len(x.Script.Interim) > 0 {
-					continue // streaming timing and 1xx are decided by the raw-socket part
+				if x.Stream || len(x.Script.Interim) > 0 || x.Truncated {
+					continue // streaming timing, 1xx and cut bodies are decided by the raw-socket part
 				}
 				if xi%3 != 0 && xi > 120 {
 					continue
